@@ -6,8 +6,10 @@ C03 typing driver: JSON lines.
   {"op":"sound","sig":SIG,"query":Q,"events":[E..],"coll_types":[{"name","type"}]}
      -> {"type":text | null, "error":msg | null, "events":[{"event_ok":bool,"outcome":"fits"|"fault:<class>"|"ILL-TYPED <value>"}]}
         (`type_soundness` evaluated: the value `denote` yields on each event fits the type `typeOf` gives)
-  SIG = {"colls":[{"name":accessor,"cls":class}], "classes":[{"cls":class,"methods":[{"name":m,"type":T}]}]}
-  T   = "int" | "float" | "double" | "bool" | "vec:" T | "obj:" class
+  SIG = {"colls":[{"name":accessor,"cls":class}], "classes":[{"cls":class,"methods":[{"name":m,"type":T}]}],
+         "fns":[{"name":f,"type":T}] (optional: user C++ functions and their declared return types)}
+  T   = "int" | "float" | "double" | "bool" | "vec:" T | "obj:" class | "decl:" <C++ type text as the metadata declares it>
+        (`Linq.declTy` decides which column type a declared text denotes: `const short` -> short, …)
 Run: lake env lean --run FaxVerif/C03/TypingDriver.lean
 -/
 import FaxVerif.Cpp.Json
@@ -21,6 +23,7 @@ partial def decTy (s : String) : Except String CTy :=
   else if s == "bool" then pure .bool
   else if s.startsWith "vec:" then do pure (.vec (← decTy (s.drop 4).toString))
   else if s.startsWith "obj:" then pure (.obj (s.drop 4).toString)
+  else if s.startsWith "decl:" then pure (declTy (s.drop 5).toString)
   else throw s!"unknown type {s}"
 
 def decSig (j : Json) : Except String Sig := do
@@ -28,7 +31,18 @@ def decSig (j : Json) : Except String Sig := do
   let meths ← (← jarr j "classes").mapM fun c => do
     let ms ← (← jarr c "methods").mapM fun m => do pure ((← jstr m "name"), (← decTy (← jstr m "type")))
     pure ((← jstr c "cls"), ms)
-  pure { colls := colls, meths := meths }
+  let fns ← match j.getObjVal? "fns" with
+    | .ok (.arr a) => a.toList.mapM fun f => do pure ((← jstr f "name"), (← decTy (← jstr f "type")))
+    | _ => pure []
+  pure { colls := colls, meths := meths, fns := fns }
+
+/-- `floatNum` plus the user functions the check's metadata declares besides `vpf` (tools/props/c03.py USERFNS) -/
+def typingNum : Num Float :=
+  { floatNum with fn := fun f xs => match f, xs with
+      | "wpf", [d] => some (d * 0.5)
+      | "upf", [d] => some (d + 1.0)
+      | "xpf", [d, i] => some (d - i)
+      | _, _ => floatNum.fn f xs }
 
 partial def showTy : CTy → String
   | .int => "int" | .float => "float" | .double => "double" | .bool => "bool" | .str => "string"
@@ -39,6 +53,7 @@ partial def showTy : CTy → String
   | .dict fs => "dict(" ++ ", ".intercalate (((fieldNames fs).zip (fieldTypes fs)).map fun p => s!"{p.1}: {showTy p.2}") ++ ")"
   | .fnil => "()"
   | .fcons k t r => s!"{k}: {showTy t}; {showTy r}"
+  | .prim n _ => n
 
 def handleColumns (j : Json) : Except String Json := do
   let S ← decSig (← j.getObjVal? "sig")
@@ -72,7 +87,7 @@ def handleSound (j : Json) : Except String Json := do
   | .error e => pure (Json.mkObj [("type", Json.null), ("error", Json.str e), ("events", Json.arr #[])])
   | .ok t =>
     let outs := evs.map fun ev =>
-      let C : QCtx Float := { N := floatNum, ev := ev, collTypes := cts }
+      let C : QCtx Float := { N := typingNum, ev := ev, collTypes := cts }
       let outcome := match denote C [] q with
         | .error f => s!"fault:{faultClass f}"
         | .ok v => if hasCTy S v t then "fits" else s!"ILL-TYPED {showVal true v}"
